@@ -246,6 +246,72 @@ func deepCopy(v reflect.Value) reflect.Value {
 	return v
 }
 
+var (
+	baseMu     sync.Mutex
+	baseStatus = map[string]string{}
+	// currentCase names the value being encoded/decoded right now (for the resource watchdog)
+	currentCase atomic.Value
+)
+
+// baselineOK: the unmodified value of the case must itself be a fixed point (encode → decode
+// consumes everything and re-encodes to the same bytes). If it is not, that is reported once as
+// C04|roundtrip-differs|base|<class> and every mutation family skips the case: mutating a value
+// whose decoder already returns something else only multiplies the same defect — and a decoder
+// that grows the value on every round trip makes the long-list variants explode.
+func (c *ctx) baselineOK(bc bcase) bool {
+	baseMu.Lock()
+	st, done := baseStatus[bc.name]
+	baseMu.Unlock()
+	if done {
+		return st == "ok"
+	}
+	currentCase.Store(bc.name + " (unmodified)")
+	detail := ""
+	st = func() (status string) {
+		defer func() {
+			if e := recover(); e != nil {
+				status, detail = "panic", fmt.Sprint(e)
+			}
+		}()
+		if bc.setup != nil {
+			bc.setup()
+		}
+		v := bc.build()
+		if bc.setup != nil {
+			bc.setup() // building the message specs leaves the global at its last value
+		}
+		b, err := bc.encode(v)
+		if err != nil {
+			detail = err.Error()
+			return "encode-error"
+		}
+		got, left, err := bc.decode(b)
+		if err != nil {
+			detail = err.Error()
+			return "decode-error"
+		}
+		if left != 0 {
+			detail = fmt.Sprintf("%d bytes left", left)
+			return "leftover"
+		}
+		b2, err := bc.encode(got)
+		if err != nil || !bytes.Equal(b, b2) {
+			detail = fmt.Sprintf("%d bytes encoded, %d bytes after decode and re-encode", len(b), len(b2))
+			return "reencode-diff"
+		}
+		return "ok"
+	}()
+	baseMu.Lock()
+	_, again := baseStatus[bc.name]
+	baseStatus[bc.name] = st
+	baseMu.Unlock()
+	if st != "ok" && !again {
+		c.r.Violate("C04|roundtrip-differs|base|"+bc.class, fmt.Sprintf("the populated %s value does not round-trip (%s: %s); its mutation families are skipped", bc.name, st, detail),
+			map[string]interface{}{"kind": "boundary", "case": bc.name})
+	}
+	return st == "ok"
+}
+
 // cached replaces the builder by clones of one prototype (builders are deterministic and some
 // are expensive).
 func cached(bc bcase) bcase {
@@ -274,6 +340,7 @@ func safeGet(lf leaf, root reflect.Value) (v reflect.Value) {
 // attempt encodes and decodes one value with leaf lf at length n.
 // status: "ok", "refused-encode", "decode-error", "leftover", "reencode-diff", "not-carried", "diff"
 func attempt(bc bcase, lf leaf, n int) (status, detail string) {
+	currentCase.Store(fmt.Sprintf("%s%s len=%d", bc.name, lf.path, n))
 	v := bc.build()
 	target := safeGet(lf, reflect.ValueOf(v))
 	if !target.IsValid() || !setLen(target, n) {
@@ -331,6 +398,9 @@ func (c *ctx) runBoundary(bc bcase) {
 // boundaryJobs returns one unit of work per length-carrying leaf of the case (so that a case
 // with many or large leaves spreads over the workers).
 func (c *ctx) boundaryJobs(bc bcase) (jobs []func()) {
+	if !c.baselineOK(bc) {
+		return nil
+	}
 	bc = cached(bc)
 	r := c.r
 	root := reflect.ValueOf(bc.build())
@@ -354,7 +424,15 @@ func (c *ctx) boundaryJobs(bc bcase) (jobs []func()) {
 					atomic.AddInt64(&c.boundaryNotCarried, 1)
 					continue
 				}
-				// failed: is a declared limit at work? ask the control length of the same width class
+				if st == "leftover" || st == "reencode-diff" || st == "diff" {
+					// the codec accepted the value and returned something else: never a declared
+					// limit. Report and leave the larger lengths of this leaf alone (a decoder
+					// that grows the value makes them explode).
+					r.Violate("C04|boundary-length|"+st+"|"+bc.class+"|"+fieldClass(lf.path),
+						fmt.Sprintf("a length/count of %#x at %s is accepted but does not come back equal (%s %s)", n, lf.path, st, detail), art)
+					return
+				}
+				// refused: is a declared limit at work? ask the control length of the same width class
 				ctl := control(n)
 				cs, ok := ctlStatus[ctl]
 				if !ok {
@@ -617,6 +695,9 @@ const limitCap = 1<<20 + 16
 // that survives encode → decode (bisection; the boundary family above shows separately that the
 // var-int width changes do not break monotonicity). The result is keyed by case name + field path.
 func (c *ctx) probeLimits(bc bcase, skip map[string]bool) map[string]int {
+	if !c.baselineOK(bc) {
+		return map[string]int{}
+	}
 	bc = cached(bc)
 	out := map[string]int{}
 	root := reflect.ValueOf(bc.build())
@@ -682,6 +763,9 @@ func (c *ctx) checkLimits(cases []bcase, seq []bcase) (observed map[string]int, 
 		seg := strings.SplitN(bc0.name, "/", 4)
 		if len(seg) < 4 || seg[0] != "tx" {
 			continue // not a multi-variant transaction payload case
+		}
+		if !c.baselineOK(bc0) {
+			continue
 		}
 		group := strings.Join(seg[:3], "/")
 		bc := cached(bc0)
